@@ -153,15 +153,19 @@ class DeviceInfoCache:
         if (cache_id is not None) and (device_info.deviceIdentifier != cache_id):
             if _debug: DeviceInfoCache._debug("    - device identifier updated")
 
-            # remove the old reference, add the new one
-            del self.cache[cache_id]
+            # remove the old reference unless another record has taken it
+            # over in the meantime, add the new one
+            if self.cache.get(cache_id, None) is device_info:
+                del self.cache[cache_id]
             self.cache[device_info.deviceIdentifier] = device_info
 
         if (cache_address is not None) and (device_info.address != cache_address):
             if _debug: DeviceInfoCache._debug("    - device address updated")
 
-            # remove the old reference, add the new one
-            del self.cache[cache_address]
+            # remove the old reference unless another record has taken it
+            # over in the meantime, add the new one
+            if self.cache.get(cache_address, None) is device_info:
+                del self.cache[cache_address]
             self.cache[device_info.address] = device_info
 
         # a record that is not in the cache yet is filed under both keys
